@@ -205,10 +205,10 @@ class PassRule:
                 t += self._lit(it[1])
         a = self.action
         at = self._lit(a[1]) if a[0] == "lit" else "?" if a[0] == "omit" else "*"
-        return "%s %s %s %s" % (self.direction, self.stage, t, at)
+        return ("%s %s %s %s" % (self.direction, self.stage, t, at)).strip()
 
     def model_line(self, idx):
-        st = {"correct": 0, "pass2": 2, "pass3": 3, "pass4": 4}[self.stage]
+        st = {"correct": 0, "pass2": 2, "pass3": 3, "pass4": 4}[self.stage] + {"": 0, "noback": 10, "nofor": 20}[self.direction]
         parts = []
         for it in self.items:
             if it == "[":
@@ -265,7 +265,7 @@ def gen_pass_rule(rng, stage, values, direction="noback", allow_lookback=True, r
     return PassRule(stage, items, act, direction)
 
 
-def gen_c06_table(rng, risky=False):
+def gen_c06_table(rng, risky=False, directions=("noback",)):
     """one-to-one main pass over a small alphabet + 0-3 literal rules in each of correct/pass2/pass3/pass4"""
     letters = [ord(c) for c in "abcd"]
     cells = rng.sample(range(1, 64), 4)
@@ -277,7 +277,7 @@ def gen_c06_table(rng, risky=False):
         vals = letters if stage == "correct" else cellvals
         extra = [32] if stage == "correct" else [0x8000, 0x8000 | 63]
         for _ in range(rng.choice([0, 0, 1, 2, 3])):
-            r = gen_pass_rule(rng, stage, vals if rng.chance(0.8) else vals + extra, risky=risky)
+            r = gen_pass_rule(rng, stage, vals if rng.chance(0.8) else vals + extra, direction=rng.choice(list(directions)), risky=risky)
             rules.append(r)
     rng.shuffle(rules)
     return entries, rules, letters
